@@ -401,6 +401,24 @@ CLAIMED = {
              "preservation along histories depends on the evaluator discipline (C02) and is not proved. Holds with the "
              "pop_to_toplevel fix (pending toplevel expressions are dropped).",
         design="§7 C10"),
+
+    "C01": dict(
+        category="proof",
+        technique="Lean 4 proof of lexer totality over the lexer model M1 (tables tied to the source by decide) + partial parser progress lemmas over the parser model M2 + lexer/parser correspondence + crash oracle over nine text streams",
+        text="Proved for every source text: the lexer never panics and terminates with fuel = length + 1 (lex_no_panic, "
+             "lex_terminates, lex_between_total: the loop offset is always a character boundary and strictly increases), token "
+             "texts are the source slices at their offsets (lex_tokens_cover); the lexer tables and regex sources in the model "
+             "equal the ones regenerated from lex.rs (decide). For the parser model: parse_symbol / require_token / "
+             "check_required_token never panic on a non-empty token list and move back by at most one token; the pinned-tree "
+             "panics are kept as witnesses. Every quick run feeds ~9k texts (raw characters incl. multi-byte and non-ASCII "
+             "whitespace, whole-token sequences, string/comment-dense texts, perturbed seed files, all seed files, EVERY "
+             "token-boundary prefix of seed and generated programs, exhaustive short strings and token sequences) through lex + "
+             "parse + check + format in-process and re-runs every crash through the CLI; the lexer model and the parser model "
+             "(on the real lexer's tokens: trees, diagnostic kinds, PANIC iff PANIC) are compared with the implementation.",
+        note=TB + "PARTIAL: parse_no_panic for the whole grammar is not proved (only the primitive steps); the type checker and "
+             "the formatter are not modelled: for them the crash oracle is the only evidence. Known finding: a few thousand "
+             "nested parentheses overflow the native stack.",
+        design="§7 C01"),
 }
 
 NOT_YET = {}
